@@ -178,7 +178,7 @@ func bearer(tok string) [][2]string { return [][2]string{{"Authorization", "Bear
 
 // tokenMatrix enumerates the token variations for one key configuration.
 func tokenMatrix(ks *keyset, a authSetup, endpoints []string) []tokenCase {
-	base := claimOpts{Exp: time.Hour, Endpoints: endpoints}
+	base := claimOpts{Exp: 24 * time.Hour, Endpoints: endpoints}
 	if a.Audience != "" {
 		base.Aud = []string{a.Audience}
 	}
@@ -270,8 +270,10 @@ func tokenMatrix(ks *keyset, a authSetup, endpoints []string) []tokenCase {
 	o.Exp = -2 * time.Minute
 	add("expired two minutes ago", false, bearer(mk(o)))
 	o = base
-	o.Nbf = 2 * time.Minute
-	add("not valid before two minutes from now", false, bearer(mk(o)))
+	// far enough ahead that a slow run on a loaded machine cannot reach it (a
+	// two-minute margin was overtaken by a five-minute run: a false alarm)
+	o.Nbf = 48 * time.Hour
+	add("not valid before two days from now", false, bearer(mk(o)))
 	o = base
 	o.Exp = 0
 	add("no expiry claim", true, bearer(mk(o)))
